@@ -56,6 +56,15 @@ func durText(r *rand.Rand, d uint64) string {
 	return strconv.FormatUint(d, 10) + "ns"
 }
 
+// blanks draws arbitrary spacing: spaces, tabs, line breaks (a list wrapped over several lines in a quoted argument)
+func blanks(r *rand.Rand) string {
+	var sb strings.Builder
+	for n := r.Intn(3); n > 0; n-- {
+		sb.WriteString([]string{" ", " ", " ", "\t", "\n", "\r\n", "  "}[r.Intn(7)])
+	}
+	return sb.String()
+}
+
 func bucketsText(r *rand.Rand, tokens []uint64) string {
 	var sb strings.Builder
 	sb.WriteByte('[')
@@ -63,9 +72,9 @@ func bucketsText(r *rand.Rand, tokens []uint64) string {
 		if i > 0 {
 			sb.WriteByte(',')
 		}
-		sb.WriteString(strings.Repeat(" ", r.Intn(3)))
+		sb.WriteString(blanks(r))
 		sb.WriteString(durText(r, tk))
-		sb.WriteString(strings.Repeat(" ", r.Intn(3)))
+		sb.WriteString(blanks(r))
 	}
 	sb.WriteByte(']')
 	return sb.String()
